@@ -192,7 +192,15 @@ fn gen_router(t: &mut Tape, p: &Profile, v6: bool, hop: u32, branch: u32, varian
         extra_delay_ns: 0,
         quote: gen_quote(t, p),
         layout: gen_layout(t, p),
-        quoted_ttl: if t.chance(300) { 0 } else { 1 },
+        // what the quoted header's TTL / hop limit reads: 1 or 0 on an ordinary router, more
+        // behind an MPLS tunnel without TTL propagation or a device that rewrites the TTL
+        quoted_ttl: match t.weighted(&[60, 25, 5, 5, 5]) {
+            0 => 1,
+            1 => 0,
+            2 => 2,
+            3 => 2 + t.draw(62) as u8,
+            _ => 255,
+        },
         tos_rewrite: None,
         nat: None,
         unreachable_code: None,
